@@ -18,10 +18,11 @@ def run(tier):
         "b in 0..2), that the statement trace of the reference interpreter on lian's own GIR is a path of lian's stored CFG: "
         "first statement is an entry node, every consecutive pair is an edge, the last statement has an edge to the exit (-1)",
         "trace convention (DESIGN section 10): a loop statement's id is emitted at each test; parameter declarations are statements",
-        "Python frontend only; family: the C01 family (all control-flow skeletons up to the size bound + call/class/data forms)",
+        "Python: the C01 family (all control-flow skeletons up to the size bound, nested-loop placements, call/class/data forms); "
+        "all seven frontends: the 31 core programs of C02 (counted for with init/condition/update, while, break/continue, calls)",
         "lian's CFG builder itself runs concretely; the explored variable is the program input",
     ]
-    r.outside += ["goto/label, yield, implicit exceptions, try/except, switch/match (not in the family yet)", "other frontends",
+    r.outside += ["goto/label, yield, implicit exceptions, try/except, switch/match (not in the family yet)", 
                   "more than 3 loop iterations"]
     base, ctl, wit = family(tier, common.seed())
     programs = base + ctl + wit
@@ -41,6 +42,12 @@ def run(tier):
                             engine="concrete scan", status="held" if n_bad == 0 else "failed", programs=len(programs_))
     tcommon.drive(r, programs, n_strict, "check_cfg", "check_cfg_reach", "trace is a CFG path for all arguments", "semantic",
                   TABLES, tier, static=static)
+    # the same obligation on the core programs rendered in all seven frontends (for_stmt with init/condition_prebody/update,
+    # while with condition_prebody, C-style break/continue)
+    from vlib.checks import c02
+    core = c02.programs()
+    tcommon.drive(r, core, len(core), "check_cfg", None, "trace is a CFG path for all arguments, seven frontends", "semantic",
+                  TABLES, tier, chunk=14, langs=c02.LANG_ARG, key="_seven_frontends")
     return r
 
 
